@@ -38,17 +38,123 @@ import (
 
 var ctx = context.Background()
 
-var sawTimeout atomic.Bool
+// Watchdogs. Every wait of the harness is bounded; a wait that runs out answers `stalled …` (the
+// runSync loop of drain / drainfirst never returned), `timeout …` (settle: the real syncLoop left
+// blobs pending) or `hang` (anything else) and stores a goroutine dump in Exec.LastDump. The watchdog
+// itself decides nothing: the generator re-runs the case's ops in a fresh world and only a stall that
+// happens again is a finding (ConfirmStall). Confirmed stalls shorten the later watchdogs, so that a
+// broken copy loop costs seconds, not the tier's timeout.
+var (
+	stalls     atomic.Int32 // confirmed stalls of any kind in this process
+	liveStalls atomic.Int32 // confirmed settle stalls
+)
 
-// stalls counts watchdog hits (runSync that never returned, settle that never drained, ops that hung)
-// in this process; after the first one the watchdogs get short, after a few the generators stop.
-var stalls atomic.Int32
-
-// liveStalls counts the settle watchdog hits alone.
-var liveStalls atomic.Int32
-
-// Stalls reports the number of watchdog hits so far: (all, of the live settle alone).
+// Stalls reports the confirmed watchdog hits so far: (all, of the live settle alone).
 func Stalls() (all, live int) { return int(stalls.Load()), int(liveStalls.Load()) }
+
+// ConfirmStall records a stall that reproduced in a fresh world.
+func ConfirmStall(out string) {
+	stalls.Add(1)
+	if strings.HasPrefix(out, "timeout") {
+		liveStalls.Add(1)
+	}
+}
+
+// IsStall: the answer of an op whose wait ran into a watchdog.
+func IsStall(out string) bool {
+	return out == "hang" || strings.HasPrefix(out, "stalled") || strings.HasPrefix(out, "timeout")
+}
+
+// wd is the watchdog time of a kind of wait: full before any confirmed stall and in re-runs that have
+// to confirm the first one, shorter afterwards. Generous on purpose: slowness alone (an oversubscribed
+// machine) must not look like a stall; the re-run in a fresh world is the second line of defence.
+func (e *Exec) wd(kind string) time.Duration {
+	confirmed := stalls.Load() > 0
+	switch kind {
+	case "runsync":
+		switch {
+		case !confirmed:
+			return 20 * time.Second
+		case e.rerun:
+			return 5 * time.Second
+		}
+		return 1500 * time.Millisecond
+	case "settle":
+		// the real loop polls every queueSyncInterval (5 s): a pending blob may legitimately wait that
+		// long after a missed wake-up
+		switch {
+		case !confirmed:
+			return 20 * time.Second
+		case e.rerun:
+			return 10 * time.Second
+		}
+		return 7 * time.Second
+	case "park":
+		if confirmed && !e.rerun {
+			return 10 * time.Second
+		}
+		return 60 * time.Second
+	}
+	// a whole op
+	if confirmed && !e.rerun {
+		return 30 * time.Second
+	}
+	return 180 * time.Second
+}
+
+var (
+	reGoArgs   = regexp.MustCompile(`\((0x[0-9a-f]+|\.\.\.|, |\{|\}|\?)+\)`)
+	reGoHeader = regexp.MustCompile(`^goroutine \d+ \[([^\],]*)[^\]]*\]:`)
+)
+
+// stackDump is runtime.Stack(all) reduced to the goroutines inside perkeep's server / blobserver
+// packages and this harness, identical stacks collapsed, at most max bytes.
+func stackDump(max int) string {
+	buf := make([]byte, 8<<20)
+	buf = buf[:runtime.Stack(buf, true)]
+	count := map[string]int{}
+	var order []string
+	for _, g := range strings.Split(string(buf), "\n\n") {
+		if !strings.Contains(g, "perkeep.org/pkg/server") && !strings.Contains(g, "perkeep.org/pkg/blobserver") &&
+			!strings.Contains(g, "verifharness/props/c19") {
+			continue
+		}
+		lines := strings.Split(g, "\n")
+		if m := reGoHeader.FindStringSubmatch(lines[0]); m != nil {
+			lines[0] = "[" + m[1] + "]"
+		}
+		var keep []string
+		for _, l := range lines {
+			if strings.HasPrefix(l, "\t") {
+				// file:line +0x… -> file:line
+				l = strings.TrimSpace(l)
+				if i := strings.Index(l, " +0x"); i > 0 {
+					l = l[:i]
+				}
+				if i := strings.LastIndex(l, "/"); i > 0 {
+					l = l[i+1:]
+				}
+				keep[len(keep)-1] += " @" + l
+				continue
+			}
+			keep = append(keep, reGoArgs.ReplaceAllString(l, "()"))
+		}
+		key := strings.Join(keep, " < ")
+		if count[key] == 0 {
+			order = append(order, key)
+		}
+		count[key]++
+	}
+	var b strings.Builder
+	for _, k := range order {
+		fmt.Fprintf(&b, "%dx %s | ", count[k], k)
+		if b.Len() > max {
+			b.WriteString("…")
+			break
+		}
+	}
+	return b.String()
+}
 
 // StepWD is Step under a per-op watchdog: no op of the protocol may block the harness.
 func (e *Exec) StepWD(ws []string) string {
@@ -63,15 +169,13 @@ func (e *Exec) StepWD(ws []string) string {
 			return e.Step(ws)
 		}()
 	}()
-	wd := 90 * time.Second
-	if stalls.Load() > 0 {
-		wd = 20 * time.Second
-	}
+	t := time.NewTimer(e.wd("op"))
+	defer t.Stop()
 	select {
 	case out := <-done:
 		return out
-	case <-time.After(wd):
-		stalls.Add(1)
+	case <-t.C:
+		e.LastDump = stackDump(6000)
 		e.broken = "hang"
 		return "hang"
 	}
@@ -330,6 +434,9 @@ func (g *gen) kill() {
 	g.w.mu.Lock()
 	g.killed = true
 	g.w.mu.Unlock()
+	// the package-level hub table of blobserver would otherwise keep every generation (hub -> hook ->
+	// handler -> wrappers -> world) reachable for the life of the process
+	blobserver.VerifForgetHub(g.src)
 	g.fmu.Lock()
 	for _, b := range g.allBps {
 		b.free()
@@ -710,6 +817,10 @@ type Exec struct {
 	upl    map[int]*parkedOp
 	cps    map[int]*parkedOp
 	broken string
+	rerun  bool // this Exec re-runs a case to confirm a stall: full watchdogs
+
+	// LastDump is the goroutine dump taken when a watchdog of this Exec last fired.
+	LastDump string
 }
 
 func newExecState() *Exec {
